@@ -633,6 +633,130 @@ pub fn exec_catalog(case: &CatCase) -> Outcome {
     out
 }
 
+
+// ---- predicates as the query path derives them from SQL -------------------------------------
+
+const SQLCOLS: [&str; NCOLS] = ["value_i64", "value_f64", "host"];
+const SQLKINDS: [Kind; NCOLS] = [Kind::Int, Kind::Float, Kind::Str];
+
+#[derive(Clone, Debug, Serialize, Deserialize)]
+pub struct SqlCase {
+    pub case: Case,
+    /// bit i set = the i-th comparison leaf (in left-to-right order) is written literal-first
+    pub rev: u32,
+}
+
+fn sql_lit(kind: Kind, l: &Lit) -> Option<String> {
+    Some(match lit_val(kind, l) {
+        (_, PredicateValue::Int64(i)) => format!("{}", i),
+        (_, PredicateValue::Float64(f)) => {
+            if !f.is_finite() {
+                return None;
+            }
+            format!("{:?}", f)
+        }
+        (_, PredicateValue::String(s)) => {
+            if s.contains('\u{0}') {
+                return None;
+            }
+            format!("'{}'", s.replace('\'', "''"))
+        }
+        (_, PredicateValue::Null) => "NULL".to_string(),
+        (_, PredicateValue::Boolean(_)) => return None,
+    })
+}
+
+fn p_sql(p: &P, rev: u32, leaf: &mut u32) -> Option<String> {
+    let col = |c: &u8| SQLCOLS[*c as usize % NCOLS];
+    let kind = |c: &u8| SQLKINDS[*c as usize % NCOLS];
+    let mut cmp = |c: &u8, l: &Lit, op: &str, swapped: &str| -> Option<String> {
+        let lit = sql_lit(kind(c), l)?;
+        let r = rev & (1 << (*leaf % 32)) != 0;
+        *leaf += 1;
+        Some(if r { format!("{} {} {}", lit, swapped, col(c)) } else { format!("{} {} {}", col(c), op, lit) })
+    };
+    Some(match p {
+        P::Eq(c, l) => cmp(c, l, "=", "=")?,
+        P::NotEq(c, l) => cmp(c, l, "<>", "<>")?,
+        P::Lt(c, l) => cmp(c, l, "<", ">")?,
+        P::LtEq(c, l) => cmp(c, l, "<=", ">=")?,
+        P::Gt(c, l) => cmp(c, l, ">", "<")?,
+        P::GtEq(c, l) => cmp(c, l, ">=", "<=")?,
+        P::In(c, ls) => format!("{} IN ({})", col(c), ls.iter().map(|l| sql_lit(kind(c), l)).collect::<Option<Vec<_>>>()?.join(", ")),
+        P::NotIn(c, ls) => format!("{} NOT IN ({})", col(c), ls.iter().map(|l| sql_lit(kind(c), l)).collect::<Option<Vec<_>>>()?.join(", ")),
+        P::Between(c, a, b) => format!("{} BETWEEN {} AND {}", col(c), sql_lit(kind(c), a)?, sql_lit(kind(c), b)?),
+        P::And(a, b) => format!("({} AND {})", p_sql(a, rev, leaf)?, p_sql(b, rev, leaf)?),
+        P::Or(a, b) => format!("({} OR {})", p_sql(a, rev, leaf)?, p_sql(b, rev, leaf)?),
+        P::Not(a) => format!("(NOT {})", p_sql(a, rev, leaf)?),
+    })
+}
+
+/// SQL WHERE clause -> QueryEngine::extract_column_predicates (as QueryNode does for every query)
+/// -> conjunction evaluated against the chunk's statistics; a 'prune' verdict is refuted by the
+/// same satisfiability search.
+pub fn exec_sql(sc: &SqlCase) -> Outcome {
+    use cardinalsin::metadata::{LocalMetadataClient, MetadataClient};
+    use std::sync::Arc;
+    let mut out = Outcome::pass();
+    // the three columns are the default schema's value_i64 / value_f64 / host
+    let cols: Vec<Col> = sc.case.cols.iter().enumerate().map(|(i, c)| Col { kind: SQLKINDS[i], rows: c.rows.clone(), stats: c.stats.clone() }).collect();
+    let case = Case { cols: cols.clone(), pred: sc.case.pred.clone() };
+    let mut leaf = 0u32;
+    let wher = match p_sql(&case.pred, sc.rev, &mut leaf) {
+        Some(w) => w,
+        None => {
+            out.class("not-expressible-in-sql");
+            return out;
+        }
+    };
+    // no timestamp term: the extraction gives up on a conjunction that contains one
+    let sql = format!("SELECT * FROM metrics WHERE {}", wher);
+    thread_local! {
+        static NODE: std::cell::RefCell<Option<(tokio::runtime::Runtime, Arc<cardinalsin::query::QueryNode>)>> = const { std::cell::RefCell::new(None) };
+    }
+    let preds = NODE.with(|n| {
+        let mut n = n.borrow_mut();
+        if n.is_none() {
+            let rt = tokio::runtime::Builder::new_current_thread().enable_all().build().unwrap();
+            let node = rt.block_on(async {
+                let store: Arc<dyn object_store::ObjectStore> = Arc::new(object_store::memory::InMemory::new());
+                let md: Arc<dyn MetadataClient> = Arc::new(LocalMetadataClient::new());
+                cardinalsin::query::QueryNode::new(cardinalsin::query::QueryConfig { l1_cache_size: 1 << 20, l2_cache_size: 0, l2_cache_dir: None, ..Default::default() }, store, md, crate::qenv::storage_config()).await.expect("query node")
+            });
+            *n = Some((rt, Arc::new(node)));
+        }
+        let (rt, node) = n.as_ref().unwrap();
+        rt.block_on(node.engine.extract_column_predicates(&sql))
+    });
+    let preds = match preds {
+        Ok(p) => p,
+        Err(_) => {
+            // e.g. a literal the planner cannot coerce to the column's type: nothing is pushed down
+            out.class("statement-refused-by-the-planner");
+            return out;
+        }
+    };
+    let (stats0, _) = build_stats(&cols);
+    let stats: HashMap<String, ColumnStats> = stats0.into_iter().map(|(k, v)| (SQLCOLS[k[1..].parse::<usize>().unwrap()].to_string(), v)).collect();
+    let verdict = preds.iter().all(|p| p.evaluate_against_stats(&stats));
+    out.class(if preds.is_empty() { "nothing-pushed-down" } else { "predicates-pushed-down" });
+    if sc.rev != 0 && leaf > 0 && (sc.rev & ((1u32 << leaf.min(31)) - 1)) != 0 {
+        out.class("literal-first-comparison");
+    }
+    out.nontrivial = !verdict || (!preds.is_empty() && touches_endpoint(&case));
+    if !verdict {
+        out.class("verdict:prune");
+        if let Some(w) = box_satisfiable(&case) {
+            let sig = match &case.pred {
+                P::And(..) | P::Or(..) | P::Not(..) => "sql-extraction-prune-unsound:tree".to_string(),
+                l => format!("sql-extraction-prune-unsound:{}", leaf_name(l)),
+            };
+            out.set_fail(sig, format!("{} -> pushed-down predicates {:?} prune a chunk although {:?} lies within its statistics and satisfies the WHERE clause", wher, preds, w));
+        }
+    }
+    out
+}
+
 // ---- generators ------------------------------------------------------------
 
 fn lit() -> impl Strategy<Value = Lit> {
@@ -730,7 +854,7 @@ pub fn def() -> PropDef {
     PropDef {
         id: "C12",
         level: "exploration",
-        rule: "random predicate trees (depth<=4; 6 comparisons, IN, NOT IN, BETWEEN, AND, OR, NOT) over 3 columns of kind int/float/string with 1-7 rows each from a small domain that includes the literals; statistics = true min/max/has_nulls, or missing, or mistyped JSON. Non-trivial = the verdict was 'prune' or a literal equals a statistics end point (box check); some chunk pruned while another chunk matches (catalog check). Distinct = distinct canonical JSON of the case.",
+        rule: "random predicate trees (depth<=4; 6 comparisons, IN, NOT IN, BETWEEN, AND, OR, NOT) over 3 columns of kind int/float/string with 1-7 rows each from a small domain that includes the literals; statistics = true min/max/has_nulls, or missing, or mistyped JSON. Non-trivial = the verdict was 'prune' or a literal equals a statistics end point (box check); some chunk pruned while another chunk matches (catalog check). sql-extraction: the same trees rendered as a SQL WHERE clause over the default schema's value_i64 / value_f64 / host (each comparison leaf in either operand order), pushed through QueryEngine::extract_column_predicates as QueryNode does, the conjunction of what comes back evaluated against the statistics and refuted the same way. Distinct = distinct canonical JSON of the case.",
         assumptions: &[
             "SQL three-valued logic as implemented in the harness' reference evaluator",
             "candidate set {min,max,literal,successor/predecessor of literal} is complete for comparison trees (truth is piecewise constant between literals)",
@@ -741,6 +865,7 @@ pub fn def() -> PropDef {
                 Box::new(Sub::<Case> { name: "box", cases: |t| t.scale(500_000, 10), strategy: case_strategy, exec: exec_box }),
                 Box::new(Sub::<Case> { name: "endpoint-leaf", cases: |t| t.scale(200_000, 10), strategy: endpoint_strategy, exec: exec_box }),
                 Box::new(Sub::<CatCase> { name: "catalog", cases: |t| t.scale(20_000, 10), strategy: cat_strategy, exec: exec_catalog }),
+                Box::new(Sub::<SqlCase> { name: "sql-extraction", cases: |t| t.scale(60_000, 10), strategy: |t| (prop_oneof![1 => case_strategy(t), 1 => endpoint_strategy(t)], prop_oneof![1 => Just(0u32), 2 => any::<u32>()]).prop_map(|(case, rev)| SqlCase { case, rev }).boxed(), exec: exec_sql }),
             ]
         },
     }
